@@ -453,3 +453,6 @@ def check(prog: Program, rep):
     from rules.common import RuleProxy as _RP10
     _pa10(prog, _RP10(rep, "C10.R8"), "C04.R5", [prog.own_method("kFlowDecompCycles", "__init__")],
           "the structural repetition bound of ignored edges comes out too small and a decomposable flow is reported infeasible")
+    # ignored elements: the value of an ignored edge must not decide a repetition cap (C04.R5)
+    from rules.c04 import repetition_caps as _rc10
+    _rc10(prog, _RP10(rep, "C10.R8"), "C04.R5")
